@@ -665,6 +665,12 @@ class Arr2(object):
             if isinstance(r, slice) and r == slice(None, None, None) and isinstance(c, int):
                 self.cols[c].setitem(Ellipsis, val)
                 return
+        if isinstance(key, Arr2) and len(key.cols) == len(self.cols) and all(k.t.sort == 'B' for k in key.cols) \
+                and not isinstance(val, (Lane, Arr2)):
+            # A[mask] = scalar with a boolean mask of the same shape: column by column
+            for col, mk in zip(self.cols, key.cols):
+                col.setitem(mk, val)
+            return
         raise paths.Unsupported('Arr2 store %r' % (key,))
 
     def all(self, axis=None):
